@@ -1,7 +1,9 @@
 # C16 — output failures are reported, never swallowed, and rotation recovers from them.
-import common, p_C14, refcbor
+import common, p_C14, p_xw, refcbor
 from concurrent.futures import ThreadPoolExecutor
-THEOREMS = ["C16_detect_fd", "C16_detect_fd_same_call", "C16_recover_transient", "C16_named_refuted", "C16_recover_persistent_refuted", "C16_nonvacuous"]
+THEOREMS = ["C16_detect_fd", "C16_detect_fd_same_call", "C16_recover_transient", "C16_named_refuted", "C16_recover_persistent_refuted",
+            "C16_exporter_reported", "C16_exporter_retains", "C16_exporter_retains_rotation", "C16_exporter_recovers", "C16_exporter_persistent_refuted",
+            "C16_exporter_nonvacuous", "C16_nonvacuous"]
 VARIANT = "plain"
 
 def match_known(case, why, known):
@@ -190,11 +192,17 @@ def run(ctx):
                 k = next((j for j in range(min(len(il), len(ml))) if il[j] != ml[j]), min(len(il), len(ml)))
                 diffs.append((c["id"], c, "outcome %d (%s): impl %r vs model %r" % (k, c["script"][k][:40] if k < len(c["script"]) else "?", il[k] if k < len(il) else None, ml[k] if k < len(ml) else None)))
     cases = wc + xc
+    # (c) the model of the exporter under faults (theorems C16_exporter_*) against the real stack: every fault point of every scenario
+    fcases, fdiffs, fstats = p_xw.fault_section(ctx, rng, 12 if tier == "quick" else 150)
+    cases += fcases; diffs += fdiffs
+    rep.cov.update(fstats)
     common.summarize_cov(rep, cases,
         "(a) writer level: named / descriptor outputs, plain / gzip / xz, a byte budget per output after which the interposed write/writev is "
         "short and then fails with ENOSPC, random writes and rotations; outcome of every call compared with the model (plain outputs) and the "
         "property evaluated on the files: an output closed with bytes lost must have seen an exception no later than its closing rotate_output. "
         "(b) exporter level on a descriptor: one rejected write (transient) or a full disk (persistent) while six 1500-byte records are buffered; "
         "after the exception the records must still be buffered and a rotate_output to a healthy descriptor + write_block must yield a valid file "
-        "containing them. Known findings are matched by their call-site key", diffs, fails)
+        "containing them. (c) exporter histories (block sizes 1..50, names up to 250 bytes) with the k-th write(2) rejected once / cut short once / "
+        "rejected from then on, for EVERY k, then a recovery attempt and destruction: outcome of every call, counters and the final content of every "
+        "descriptor against the model of the exporter under faults (coq/ExporterFaults.v). Known findings are matched by their call-site key", diffs, fails)
     return {"diffs": diffs, "fails": fails, "to_script": lambda c: common.case_script(c)}
